@@ -59,16 +59,18 @@ def run(prog: Program, rep: Report):
     r5_provenance(prog, rep, sf)
     r6_validation(prog, rep, sf)
     r7_observers(prog, rep, sf)
+    r8_empty_methods(prog, rep, sf)
 
 
 # ---------------------------------------------------------------------------------------------- R1
 class _NonEmpty(Client):
     """state = frozenset of expression keys (source text of names / self fields) known to be non-empty"""
 
-    def __init__(self):
+    def __init__(self, storages=()):
         self.bad: List[Tuple[int, str]] = []
         self.checked = 0
         self.unpacks: List[Tuple[int, str]] = []
+        self.storages = set(storages)   # source text of the list fields (self.values, ...): a no-argument / constant pop is a fixed-position access
 
     def should_inline(self, func, call, ctx):
         return False
@@ -115,6 +117,13 @@ class _NonEmpty(Client):
                 self.checked += 1
                 if base not in state and not _in_handler(node, ("IndexError", "LookupError", "Exception")):
                     self.bad.append((node.lineno, src(node)))
+        if kind == "call" and isinstance(node, ast.Call) and isinstance(node.func, ast.Attribute) and node.func.attr == "pop" \
+                and src(node.func.value) in self.storages and len(node.args) <= 1 and not node.keywords \
+                and (not node.args or isinstance(const_value(node.args[0], None), int)):
+            self.checked += 1
+            base = src(node.func.value)
+            if base not in state and not _in_handler(node, ("IndexError", "LookupError", "Exception")):
+                self.bad.append((node.lineno, src(node)))
         if kind in ("call",) and isinstance(node, ast.Call) and isinstance(node.func, ast.Attribute) \
                 and node.func.attr in ("append", "insert", "add"):
             return (state | {src(node.func.value)},)
@@ -176,6 +185,40 @@ def r1_empty(prog, rep: Report, sf: SortedFacts):
         else:
             rep.ok("C09.R1", f, "empty-input", f"{client.checked} fixed-position accesses, all guarded; no fixed-arity "
                    "unpacking of zip(*p)")
+
+
+def r8_empty_methods(prog, rep: Report, sf: SortedFacts):
+    rep.rule("C09.R8", "operations on an empty structure report KeyError like set / dict: in every own method other than the "
+             "constructor a fixed-position access of the storage lists (S[0], S[-1], S.pop(), S.pop(<const>)) needs a dominating "
+             "non-emptiness test or an IndexError handler", floor=2)
+    for c in (sf.sset, sf.smap):
+        storages = {f"self.{x}" for x in (sf.key_storage[c.qual], sf.value_storage(c)) if x}
+        n_m = 0
+        bad_all = []
+        checked = 0
+        for name, f in sorted(c.methods.items()):
+            if name == "__init__" or f.self_name is None:
+                continue
+            rep.fn(f)
+            client = _NonEmpty({x.replace("self.", f.self_name + ".") for x in storages})
+            it = Interp(prog, client)
+            it.run(f, {frozenset()}, c)
+            if it.unrecognised:
+                rep.unrec("C09.R8", f, f"empty:{name}", "; ".join(it.unrecognised))
+                continue
+            n_m += 1
+            checked += client.checked
+            own = [(ln, w) for ln, w in client.bad if any(w.startswith(st.replace("self.", f.self_name + ".")) for st in storages)]
+            for ln, w in own:
+                bad_all.append((f, ln, w))
+        if bad_all:
+            f, ln, w = bad_all[0]
+            rep.viol("C09.R8", f, f"empty:{c.name}", f"`{w}` in {f.qual} is evaluated without a dominating non-emptiness test or IndexError handler",
+                     scenario=f"on an empty {c.name} the operation raises IndexError where the builtin raises KeyError; the inherited "
+                              "clear() / -= / ^= drain with pop() until KeyError and now fail with IndexError", line=ln)
+        else:
+            rep.ok("C09.R8", c.methods.get("__len__") or next(iter(c.methods.values())), f"empty:{c.name}",
+                   f"{n_m} methods, {checked} fixed-position accesses, all guarded")
 
 
 # ---------------------------------------------------------------------------------------------- R2
@@ -256,14 +299,16 @@ def r2_dedup(prog, rep: Report, sf: SortedFacts):
                 and dotted(n.func.value) == (f.self_name, ks):
             arg = n.args[-1]
             guard = _enclosing_if(n)
-            filt = guard is not None and _adjacent_inequality(guard.test, arg, f, ks)
             loop = _enclosing_loop(n)
+            filt, filt_why = _adjacent_inequality(guard.test, arg, f, ks, loop, flow) if guard is not None else (None, None)
             sorted_iter = loop is not None and _iter_is_sorted(loop, flow)
             seed = loop is None and isinstance(arg, ast.Subscript) and const_value(arg.slice) == 0 \
                 and isinstance(arg.value, ast.Name) and isinstance(flow.expand(arg.value), ast.Call) \
                 and src(flow.expand(arg.value).func) == "sorted"
             if filt and sorted_iter:
                 verdicts.append((True, "adjacent-inequality filter over a sorted iteration", n))
+            elif filt is False and sorted_iter:
+                verdicts.append((False, filt_why, n))
             elif seed:
                 verdicts.append((True, "first element of the sorted values seeds the storage", n))
             else:
@@ -387,18 +432,110 @@ def _iter_is_sorted(loop, flow: Flow) -> bool:
     return False
 
 
-def _adjacent_inequality(test, arg, f: Func, ks: str) -> bool:
-    """the guard contains `cur != prev` where cur is the appended value and prev the previously kept/sorted value"""
-    for sub in ast.walk(test):
-        if isinstance(sub, ast.Compare) and len(sub.ops) == 1 and isinstance(sub.ops[0], ast.NotEq):
-            sides = {src(sub.left), src(sub.comparators[0])}
-            if src(arg) in sides:
-                other = (sides - {src(arg)})
-                if other:
-                    o = next(iter(other))
-                    if o.endswith("[-1]") or "- 1]" in o or "-1]" in o or o.startswith("prev") or o.startswith("last"):
-                        return True
-    return False
+def _adjacent_inequality(test, arg, f: Func, ks: str, loop=None, flow: Optional[Flow] = None):
+    """Truth-table check of a de-duplicating guard over a sorted iteration.
+
+    The guard must be equivalent to  `first or cur != prev`  where cur is the appended value, prev the previously kept (or
+    previously iterated) value and first = "nothing kept yet" (then prev does not exist and the guard must hold whatever the
+    comparison would say).  Atoms:  N = a single `!=`/`==` between cur and prev;  E = an emptiness test of the storage
+    (len(S) compared with a constant, truthiness of S or len(S)) or `prev is None` for a local initialised to None before the
+    loop;  every other sub-expression (e.g. the truthiness of a stored value, `not last`) is a free atom that may be true or
+    false independently.  Returns (True, None), (False, reason) or (None, reason) when no cur/prev comparison is present."""
+    from itertools import product
+    from ..orderings import NotAFormula, eval_order, eval_prop
+    cur = src(arg)
+    self_st = f"{f.self_name}.{ks}"
+
+    def is_prev(e) -> bool:
+        t = src(e)
+        if t == f"{self_st}[-1]":
+            return True
+        if isinstance(e, ast.Name) and flow is not None and loop is not None:
+            # a local that, inside the loop, is only ever assigned the current value
+            inside = [n for n in ast.walk(loop) if isinstance(n, ast.Assign) and any(isinstance(t_, ast.Name) and t_.id == e.id for t_ in n.targets)]
+            return bool(inside) and all(src(n.value) == cur for n in inside)
+        if isinstance(e, ast.Subscript) and isinstance(arg, ast.Subscript) and src(e.value) == src(arg.value):
+            from .c15 import _linear, _norm_lin
+            sym = lambda x: src(x) if isinstance(x, ast.Name) else None
+            a, b = _linear(e.slice, sym), _linear(arg.slice, sym)
+            if a is not None and b is not None:
+                d = _norm_lin({k: a.get(k, 0) - b.get(k, 0) for k in set(a) | set(b)})
+                return d == {"1": -1}
+        return False
+
+    def none_local(e) -> bool:
+        if not (isinstance(e, ast.Name) and is_prev(e) and loop is not None):
+            return False
+        pre = [n for n in walk_own(f.node) if isinstance(n, ast.Assign) and n.lineno < loop.lineno
+               and any(isinstance(t_, ast.Name) and t_.id == e.id for t_ in n.targets)]
+        return bool(pre) and all(isinstance(n.value, ast.Constant) and n.value.value is None for n in pre)
+
+    has_n = [False]
+    has_e = [False]
+    free: List[str] = []
+
+    def len_term(nonempty_len):
+        def term(x):
+            if src(x) == f"len({self_st})":
+                return nonempty_len
+            if isinstance(x, ast.Constant) and isinstance(x.value, int) and not isinstance(x.value, bool):
+                return x.value
+            return None
+        return term
+
+    def mk_atom(E: bool, N: bool, fr: Dict[str, bool]):
+        def atom(x) -> Optional[bool]:
+            t = src(x)
+            if isinstance(x, ast.Compare) and len(x.ops) == 1 and isinstance(x.ops[0], (ast.NotEq, ast.Eq)):
+                l, r = x.left, x.comparators[0]
+                if (src(l) == cur and is_prev(r)) or (src(r) == cur and is_prev(l)):
+                    has_n[0] = True
+                    return N if isinstance(x.ops[0], ast.NotEq) else not N
+            if isinstance(x, ast.Compare) and len(x.ops) == 1 and isinstance(x.ops[0], (ast.Is, ast.IsNot)) \
+                    and isinstance(x.comparators[0], ast.Constant) and x.comparators[0].value is None and none_local(x.left):
+                has_e[0] = True
+                return E if isinstance(x.ops[0], ast.Is) else not E
+            if t in (self_st, f"len({self_st})"):
+                has_e[0] = True
+                return not E
+            if isinstance(x, ast.Compare) and f"len({self_st})" in t:
+                try:
+                    vals = {bool(eval_order(x, {}, len_term(k))) for k in ((0,) if E else (1, 2, 7))}
+                except NotAFormula:
+                    vals = set()
+                if len(vals) == 1:
+                    has_e[0] = True
+                    return vals.pop()
+            if isinstance(x, (ast.BoolOp,)) or (isinstance(x, ast.UnaryOp) and isinstance(x.op, ast.Not)):
+                return None
+            if isinstance(x, ast.Constant) and isinstance(x.value, bool):
+                return None
+            if t not in free:
+                free.append(t)
+            return fr.get(t, False)
+        return atom
+
+    # first pass discovers the atoms
+    try:
+        eval_prop(test, mk_atom(False, False, {}))
+        eval_prop(test, mk_atom(True, True, {t: True for t in free}))
+    except NotAFormula as e:
+        return None, f"guard `{src(test)}` is not a propositional formula ({e})"
+    if not has_n[0]:
+        return None, "no comparison of the appended value with the previous one"
+    e_values = (False, True) if (has_e[0]) else (False,)
+    for E in e_values:
+        for N in (False, True):
+            for bits in product((False, True), repeat=len(free)):
+                fr = dict(zip(free, bits))
+                got = eval_prop(test, mk_atom(E, N, fr))
+                want = True if E else N
+                if got != want:
+                    what = "nothing kept yet" if E else ("the value equals the previous one" if not N else "the value differs from the previous one")
+                    extra = "".join(f", `{k}` is {"truthy" if v else "falsy (0, empty)"}" for k, v in fr.items())
+                    return False, (f"the guard `{src(test)}` {'keeps' if got else 'drops'} the value when {what}{extra}"
+                                   f" (it is not equivalent to `first or value != previous`)")
+    return True, None
 
 
 def _under_isinstance(n, param, clsname) -> bool:
